@@ -861,14 +861,12 @@ def generate_round5(bdir):
                         [t for _, t in items]))
     # ---- destruct_object: the simul_efun refusal and the vital-object branch (master reload) ------------------------------
     f = ast_function(bdir, "src/simulate.c", "destruct_object")
-    keep = ("master_ob", "simul_efun_ob", "vital_obj_name", "new_ob")
-    sh = [t for t in shape(f, {"set_master": True, "set_simul_efun": True, "error": True}, variables=("new_ob", "vital_obj_name"))
-          if "config_str" not in t]
-    L.append(lean_shape("destructVitalShape", "destruct_object: what concerns the master / simul_efun object - the refusal to destruct the "
+    sh = shape(f, {"set_master": True, "set_simul_efun": True, "error": True}, variables=("new_ob",))
+    L.append(lean_shape("destructVitalShape", "destruct_object, only what concerns the master / simul_efun object: the refusal to destruct the "
                         "simul_efun object while a master exists, the reload of a vital object through load_object (on behalf of the "
                         "caller: its euid test) followed by set_master / set_simul_efun",
-                        [t for t in sh if any(x in t for x in keep) or t.startswith(("load_object", "set_master", "set_simul_efun"))
-                         or "Cannot destruct simul_efun" in t or "vital object" in t]))
+                        relevant(sh, ("(ob == simul_efun_ob) && master_ob", "Cannot destruct simul_efun", "= load_object(", "set_master(",
+                                      "set_simul_efun("))))
     # ---- error texts the model renders (canonical form of the harness: newline dropped, blanks -> `_`) ---------------------
     def err_text(relsrc, fn, needle):
         ff = ast_function(bdir, relsrc, fn)
